@@ -224,12 +224,20 @@ impl Nfa {
         match expr.kind() {
             HirKind::Empty => Ok(accept),
 
-            HirKind::Literal(Literal(l)) => Ok(l.iter().rev().fold(accept, |accept, &b| {
-                let s0 = self.new_state(StateKind::Neither);
-                self.push_edge(s0, Test::byte(b), accept);
-                self.push_edge(s0, Other, reject);
-                s0
-            })),
+            HirKind::Literal(Literal(l)) => {
+                // Classes are ranges of code points, so walk literals by code point too
+                // (falling back to bytes for non-UTF-8 literals of byte-oriented regexes).
+                let tests: Vec<Test> = match std::str::from_utf8(l) {
+                    Ok(s) => s.chars().map(Test::char).collect(),
+                    Err(_) => l.iter().map(|&b| Test::byte(b)).collect(),
+                };
+                Ok(tests.into_iter().rev().fold(accept, |accept, test| {
+                    let s0 = self.new_state(StateKind::Neither);
+                    self.push_edge(s0, test, accept);
+                    self.push_edge(s0, Other, reject);
+                    s0
+                }))
+            }
 
             HirKind::Class(class) => {
                 match *class {
